@@ -1,6 +1,252 @@
-//! C26: not implemented yet.
+//! C26: host allow-list.  Also hosts the scripted-transport engine shared with C27.
+//! kinds:
+//!   {"kind":"match","pattern":str,"uri":str}
+//!   {"kind":"chain","allowed":[str]|null,"allow_redirects":bool,"uri":str,"method":str,
+//!    "headers":[[name,valuehex]],"body":hex,"script":[[status,lochex|null]|"err"]}
+use std::{
+    collections::VecDeque,
+    future::Future,
+    io::{Cursor, Read},
+    pin::Pin,
+    sync::{Arc, Mutex},
+    task::{Context, Poll, Waker},
+};
+
+use c2pa::{
+    http::{
+        http::{header::LOCATION, HeaderName, HeaderValue, Method, Request, Response, Uri},
+        restricted::{HostPattern, RestrictedResolver},
+        AsyncHttpResolver, HttpResolverError, SyncHttpResolver,
+    },
+    verif_hooks::{c26 as hk, c27 as hk27},
+};
 use serde_json::{json, Value};
 
-pub fn run(_case: &Value) -> Value {
-    json!({"r": "unimplemented"})
+use crate::util::*;
+
+pub fn uri_json(u: &Uri) -> Value {
+    json!({
+        "uri": u.to_string(),
+        "scheme": u.scheme().map(|s| s.as_str().to_string()),
+        "host": u.host().map(|s| s.to_string()),
+        "port": u.port().map(|p| p.as_str().to_string()),
+    })
 }
+
+pub fn http_err_class(e: &HttpResolverError) -> String {
+    let d = format!("{:?}", e);
+    let end = d
+        .find(|c: char| !(c.is_alphanumeric() || c == '_'))
+        .unwrap_or(d.len());
+    d[..end].to_string()
+}
+
+#[derive(Clone)]
+pub enum Step {
+    Resp(u16, Option<Vec<u8>>),
+    Err,
+}
+
+pub struct Mock {
+    script: Mutex<VecDeque<Step>>,
+    pub trace: Mutex<Vec<Value>>,
+}
+
+impl Mock {
+    pub fn new(script: Vec<Step>) -> Self {
+        Mock { script: Mutex::new(script.into()), trace: Mutex::new(Vec::new()) }
+    }
+
+    fn serve(&self, request: Request<Vec<u8>>) -> Result<Response<Box<dyn Read>>, HttpResolverError> {
+        let hs: Vec<Value> = request
+            .headers()
+            .iter()
+            .map(|(n, v)| json!([n.as_str(), hexe(v.as_bytes())]))
+            .collect();
+        let mut rec = uri_json(request.uri());
+        rec["method"] = json!(request.method().as_str());
+        rec["headers"] = json!(hs);
+        rec["body"] = json!(hexe(request.body()));
+        self.trace.lock().unwrap().push(rec);
+        let step = self.script.lock().unwrap().pop_front().unwrap_or(Step::Resp(200, None));
+        match step {
+            Step::Err => Err(HttpResolverError::SyncHttpResolverNotImplemented),
+            Step::Resp(status, loc) => {
+                let mut b = Response::builder().status(status);
+                if let Some(l) = loc {
+                    b = b.header(LOCATION, HeaderValue::from_bytes(&l).expect("location header value"));
+                }
+                Ok(b.body(Box::new(Cursor::new(Vec::new())) as Box<dyn Read>).expect("response"))
+            }
+        }
+    }
+}
+
+impl SyncHttpResolver for Mock {
+    fn http_resolve(&self, request: Request<Vec<u8>>) -> Result<Response<Box<dyn Read>>, HttpResolverError> {
+        self.serve(request)
+    }
+}
+
+// hand-desugared #[async_trait] method (the harness has no async-trait dependency)
+impl AsyncHttpResolver for Mock {
+    fn http_resolve_async<'life0, 'async_trait>(
+        &'life0 self,
+        request: Request<Vec<u8>>,
+    ) -> Pin<Box<dyn Future<Output = Result<Response<Box<dyn Read>>, HttpResolverError>> + Send + 'async_trait>>
+    where
+        'life0: 'async_trait,
+        Self: 'async_trait,
+    {
+        Box::pin(async move { self.serve(request) })
+    }
+}
+
+fn block_on<F: Future>(f: F) -> F::Output {
+    let mut f = std::pin::pin!(f);
+    let mut cx = Context::from_waker(Waker::noop());
+    loop {
+        if let Poll::Ready(v) = f.as_mut().poll(&mut cx) {
+            return v;
+        }
+    }
+}
+
+pub fn parse_script(v: &Value) -> Vec<Step> {
+    v.as_array()
+        .map(|a| {
+            a.iter()
+                .map(|s| {
+                    if s.is_string() {
+                        Step::Err
+                    } else {
+                        let loc = if s[1].is_null() { None } else { Some(hexd(&s[1])) };
+                        Step::Resp(s[0].as_u64().unwrap_or(200) as u16, loc)
+                    }
+                })
+                .collect()
+        })
+        .unwrap_or_default()
+}
+
+fn build_request(case: &Value, uri: &Uri) -> Option<Request<Vec<u8>>> {
+    let method = Method::from_bytes(case["method"].as_str().unwrap_or("GET").as_bytes()).ok()?;
+    let mut b = Request::builder().method(method).uri(uri.clone());
+    if let Some(hs) = case["headers"].as_array() {
+        for h in hs {
+            let n = HeaderName::from_bytes(h[0].as_str().unwrap_or("").as_bytes()).ok()?;
+            let v = HeaderValue::from_bytes(&hexd(&h[1])).ok()?;
+            b = b.header(n, v);
+        }
+    }
+    b.body(if case["body"].is_null() { Vec::new() } else { hexd(&case["body"]) }).ok()
+}
+
+fn outcome(r: Result<Response<Box<dyn Read>>, HttpResolverError>) -> Value {
+    match r {
+        Ok(resp) => json!({"r": "ok", "status": resp.status().as_u16()}),
+        Err(e) => json!({"r": "err", "kind": http_err_class(&e)}),
+    }
+}
+
+/// Runs one scripted chain through  RedirectResolver(RestrictedResolver(mock))  (or RedirectResolver(mock)
+/// when no allow-list is given) — the shape of Context::build_default_sync_resolver.
+pub fn run_chain(case: &Value) -> Value {
+    let uri: Uri = match case["uri"].as_str().unwrap_or("").parse() {
+        Ok(u) => u,
+        Err(_) => return json!({"r": "uri_err"}),
+    };
+    let allowed: Option<Vec<HostPattern>> = case["allowed"]
+        .as_array()
+        .map(|a| a.iter().map(|p| HostPattern::new(p.as_str().unwrap_or(""))).collect());
+    let allow_redirects = case["allow_redirects"].as_bool().unwrap_or(true);
+    let script = parse_script(&case["script"]);
+    for s in &script {
+        if let Step::Resp(st, loc) = s {
+            if !(100..1000).contains(st) || loc.as_ref().map(|l| HeaderValue::from_bytes(l).is_err()).unwrap_or(false) {
+                return json!({"r": "bad_case"});
+            }
+        }
+    }
+    let Some(req) = build_request(case, &uri) else { return json!({"r": "bad_case"}) };
+    let Some(req2) = build_request(case, &uri) else { return json!({"r": "bad_case"}) };
+
+    // sync
+    let mock = Arc::new(Mock::new(script.clone()));
+    let res = match &allowed {
+        Some(hs) => hk::verif_redirect_resolver(
+            RestrictedResolver::with_allowed_hosts(mock.clone(), hs.clone()),
+            allow_redirects,
+        )
+        .http_resolve(req),
+        None => hk::verif_redirect_resolver(mock.clone(), allow_redirects).http_resolve(req),
+    };
+    let mut out = outcome(res);
+    let trace = mock.trace.lock().unwrap().clone();
+
+    // async: same stack, same script; must behave identically
+    let amock = Arc::new(Mock::new(script.clone()));
+    let ares = match &allowed {
+        Some(hs) => {
+            let r = hk::verif_redirect_resolver_async(
+                RestrictedResolver::with_allowed_hosts(amock.clone(), hs.clone()),
+                allow_redirects,
+            );
+            block_on(r.http_resolve_async(req2))
+        }
+        None => {
+            let r = hk::verif_redirect_resolver_async(amock.clone(), allow_redirects);
+            block_on(r.http_resolve_async(req2))
+        }
+    };
+    let aout = outcome(ares);
+    let atrace = amock.trace.lock().unwrap().clone();
+    let same = aout == out && atrace == trace;
+    out["async_same"] = json!(same);
+
+    // observed joins: for every served response carrying a Location that to_str accepts
+    let mut joins = Vec::new();
+    for (i, rec) in trace.iter().enumerate() {
+        let Some(Step::Resp(_, Some(loc))) = script.get(i) else { continue };
+        let Ok(hv) = HeaderValue::from_bytes(loc) else { continue };
+        let Ok(s) = hv.to_str() else { continue };
+        let base: Uri = rec["uri"].as_str().unwrap_or("").parse().expect("trace uri");
+        let t = match hk27::verif_resolve_redirect_target(&base, s) {
+            Ok(t) => {
+                let mut j = uri_json(&t);
+                j["non_global"] = json!(hk27::verif_host_is_non_global(&t));
+                j
+            }
+            Err(e) => json!({"err": http_err_class(&e)}),
+        };
+        joins.push(json!({"hop": i, "loc": hexe(loc), "target": t}));
+    }
+    out["trace"] = json!(trace);
+    out["joins"] = json!(joins);
+    out["start"] = uri_json(&uri);
+    out
+}
+
+fn run_match(case: &Value) -> Value {
+    let pat = HostPattern::new(case["pattern"].as_str().unwrap_or(""));
+    let (p, s, h, po) = hk::verif_pattern_fields(&pat);
+    let uri: Uri = match case["uri"].as_str().unwrap_or("").parse() {
+        Ok(u) => u,
+        Err(_) => return json!({"r": "uri_err", "fields": [p, s, h, po]}),
+    };
+    let m = pat.matches(&uri);
+    let m2 = hk::verif_is_uri_allowed(std::slice::from_ref(&pat), &uri);
+    // serde round trip goes through HostPattern::new as well (settings path)
+    let de: HostPattern = serde_json::from_value(json!(case["pattern"].as_str().unwrap_or(""))).expect("pattern de");
+    json!({"r": "ok", "fields": [p, s, h, po], "uri": uri_json(&uri), "matches": m,
+           "list_same": m == m2, "serde_same": de == pat})
+}
+
+pub fn run(case: &Value) -> Value {
+    match case["kind"].as_str().unwrap_or("") {
+        "match" => run_match(case),
+        "chain" => run_chain(case),
+        _ => json!({"r": "bad_case"}),
+    }
+}
+
